@@ -102,6 +102,10 @@ DistinctMenu == {
   Agg(<<CountStar>>, <<Arith("+", V, Zero)>>, NoE, NoH, TRUE, NoLimit, "none"),
   Agg(<<KeyK, CountStar>>, <<K, Arith("*", V, One)>>, NoE, NoH, TRUE, NoLimit, "none"),
   Agg(<<CountStar>>, <<CaseE(<<<<CmpE("=", K, Lit(A)), Lit(B)>>>>, Lit(A))>>, NoE, NoH, TRUE, NoLimit, "none"),
+  \* an expression over an aggregate that is not injective: groups whose aggregates differ (1, 2 and 3 rows; sums 1, 2, 3) but whose shown cells are equal
+  Agg(<<[CountStar EXCEPT !.wrap = Arith("/", Col("$value"), Two)]>>, <<K>>, NoE, NoH, TRUE, NoLimit, "none"),
+  Agg(<<[SumV EXCEPT !.wrap = CmpE(">", Col("$value"), Zero)], [CountStar EXCEPT !.wrap = Arith("*", Col("$value"), Zero)]>>, <<K>>, NoE, HAgg(CountStar, ">=", IntV(1)), TRUE, NoLimit, "none"),
+  Agg(<<[MaxOfV EXCEPT !.wrap = Call("abs", <<Arith("-", Col("$value"), Two)>>)]>>, <<K, V>>, NoE, NoH, TRUE, NoLimit, "none"),
   \* DISTINCT on a projection of only some of the group keys: groups that differ in the other key show equal rows
   Agg(<<ItE("key", V, "v")>>, <<K, V>>, NoE, HAgg(CountStar, ">=", IntV(1)), TRUE, NoLimit, "none"),
   Agg(<<KeyK>>, <<K, V>>, NoE, HAgg(CountStar, ">=", IntV(1)), TRUE, NoLimit, "none")
@@ -149,6 +153,11 @@ LimitJoinMenu == { [s EXCEPT !.limit = n] : s \in {Star(NoE, FALSE, NoLimit, "in
                                                    Sel(<<P(W, "")>>, NoE, TRUE, NoLimit, "inner"),
                                                    Sel(<<P(K, ""), P(W, "")>>, CmpE(">", W, Zero), FALSE, NoLimit, "inner"),
                                                    Sel(<<P(K, ""), P(W, "")>>, CmpE(">", W, Zero), FALSE, NoLimit, "outer")}, n \in 0..4 }
+
+\* a LIMIT beyond every size: all rows, and nothing may be sized by the number (DISTINCT memories, result tables)
+HugeLimitMenu == { [s EXCEPT !.limit = n] : s \in {PlainKV, Sel(<<P(K, "")>>, NoE, TRUE, NoLimit, "none"), Sel(<<P(V, ""), P(K, "")>>, VPos, TRUE, NoLimit, "none"),
+                                                    Agg(<<KeyK, CountStar>>, <<K>>, NoE, NoH, FALSE, NoLimit, "none"), Agg(<<CountStar>>, <<K>>, NoE, NoH, TRUE, NoLimit, "none"),
+                                                    Agg(<<KeyK, SumV>>, <<K>>, NoE, HAgg(CountStar, ">=", IntV(1)), FALSE, NoLimit, "none")}, n \in {2000000001, 2000000002} }
 
 \* C04: every aggregate, alone, in both positions relative to the key, in pairs, without GROUP BY, with WHERE / HAVING / wrapper
 Comma == <<44>>
@@ -217,6 +226,24 @@ OverflowAggMenu ==
   \cup {Agg(<<ItE("sum", Arith("+", V, One), "x"), CountStar>>, <<>>, NoE, NoH, FALSE, NoLimit, "none"),
         Agg(<<ItE("avg", Arith("-", V, Two), "x")>>, <<>>, NoE, NoH, FALSE, NoLimit, "none"),
         Agg(<<KeyK>>, <<K>>, NoE, HAgg(ItE("sum", Arith("*", V, Two), "x"), ">", IntV(0)), FALSE, NoLimit, "none")}
+
+\* an aggregate whose argument has no value on one row of a group (6 / v on the row v = 0, a cast of a text that is no number): the statement fails -- wherever that
+\* row stands in the input and whatever the rows before it were (an aggregate that is "already decided" may not skip evaluating its argument)
+DivV == Arith("/", Lit(IntV(6)), V)
+ErrAggMenu ==
+  {Agg(<<KeyK, ItE(a, DivV, "x")>>, <<K>>, NoE, NoH, FALSE, NoLimit, "none") : a \in {"sum", "avg", "min", "max", "array_agg", "variance", "stddev"}}
+  \cup {Agg(<<KeyK, ItE(a, CmpE(">", DivV, Two), "x")>>, <<K>>, NoE, NoH, FALSE, NoLimit, "none") : a \in {"bool_and", "bool_or"}}
+  \cup {Agg(<<ItE(a, CmpE("<", DivV, Two), "x"), CountStar>>, <<>>, NoE, NoH, FALSE, NoLimit, "none") : a \in {"bool_and", "bool_or"}}
+  \cup {Agg(<<KeyK, [a |-> "percentile", e |-> DivV, pn |-> 1, pd |-> 2, as |-> "p50", wrap |-> NoE]>>, <<K>>, NoE, NoH, FALSE, NoLimit, "none"),
+        Agg(<<KeyK, [a |-> "string_agg", e |-> Cast(DivV, "text"), delim |-> Comma, as |-> "sa", wrap |-> NoE]>>, <<K>>, NoE, NoH, FALSE, NoLimit, "none"),
+        Agg(<<KeyK>>, <<K>>, NoE, HAgg(ItE("bool_or", CmpE(">", DivV, Two), "x"), "=", BoolV(TRUE)), FALSE, NoLimit, "none"),
+        Agg(<<KeyK, ItE("max", Cast(K, "int"), "x")>>, <<K>>, NoE, NoH, FALSE, NoLimit, "none")}
+LinesErrAgg == {KV(A, IntV(0)), KV(A, IntV(1)), KV(A, IntV(6)), KV(B, IntV(2)), KV(A, Null)}
+\* aggregate statements whose LIMIT meets HAVING / DISTINCT: which groups fill the limit may not depend on the order in which the groups first appear
+OrderLimitMenu == { [s EXCEPT !.limit = n] : s \in {Agg(<<KeyK, CountStar>>, <<K>>, NoE, HAgg(CountStar, ">=", IntV(2)), FALSE, NoLimit, "none"),
+                                                     Agg(<<CountStar>>, <<K>>, NoE, NoH, TRUE, NoLimit, "none"),
+                                                     Agg(<<KeyK, SumV>>, <<K>>, NoE, HAgg(MaxOfV, ">", IntV(1)), FALSE, NoLimit, "none"),
+                                                     Agg(<<KeyK, CountStar>>, <<K>>, NoE, NoH, FALSE, NoLimit, "none")}, n \in 1..2 }
 
 \* C09 / C03: operators, functions, subscripts and casts on boundary values (64-bit extremes, zero divisors, NaN / infinities / -0.0)
 BInts == {MinV(0), MinV(1), IntV(-1), IntV(0), IntV(1), IntV(2), IntV(63), IntV(64), MaxV(-1), MaxV(0)}
@@ -554,7 +581,9 @@ GenSelect(j) ==
            ex(i) == IF j # "none" /\ RandomElement(1..10) <= 4 THEN RandomElement(GenExprsJ) ELSE RandomElement(GenExprs)
            one(i) == LET e == ex(i) IN P(e, IF e.op = "col" \/ RandomElement(1..10) <= 6 THEN CNames[i] ELSE "")
        IN Sel([i \in 1..n |-> one(i)], GenWhere(j), RandomElement(BOOLEAN), GenLimit(j), j)
-WrapPool == {Arith("*", Col("$value"), Two), Arith("+", One, Col("$value")), NegE(Col("$value")), Arith("-", Lit(IntV(100)), Arith("*", Col("$value"), Lit(IntV(10))))}
+\* (the last four are not injective: groups whose aggregates differ may show equal cells -- what DISTINCT compares is the shown row)
+WrapPool == {Arith("*", Col("$value"), Two), Arith("+", One, Col("$value")), NegE(Col("$value")), Arith("-", Lit(IntV(100)), Arith("*", Col("$value"), Lit(IntV(10)))),
+             Arith("/", Col("$value"), Two), CmpE(">", Col("$value"), One), Call("abs", <<Arith("-", Col("$value"), Two)>>), Arith("*", Col("$value"), Zero)}
 NumericAggs == {"count_star", "count", "count_distinct", "sum", "min", "max"}
 GenAggPool(j) == AllAggs \cup (IF j = "none" THEN {} ELSE {ItE("sum", W, "sw"), ItE("max", W, "whi"), ItC("count", "w", "cw"), ItE("min", Col("u.k"), "uklo")})
 MaybeWrap(it) == IF it.a \in NumericAggs /\ (("e" \in DOMAIN it) => it.e \in {V, W}) /\ RandomElement(1..10) <= 3 THEN [it EXCEPT !.wrap = RandomElement(WrapPool)] ELSE it
